@@ -89,6 +89,40 @@ def _idx(i):
     return i
 
 
+def _split_index(a, idx):
+    """torch treats integer indices as basic `select` even when tensor indices are present;
+    numpy treats them as advanced indices. Apply the integers first (a view), return the
+    remaining index for a second step."""
+    if not isinstance(idx, tuple):
+        return a, idx
+    has_arr = any(isinstance(j, (np.ndarray, list)) for j in idx)
+    has_int = any(isinstance(j, (int, np.integer)) and not isinstance(j, bool) for j in idx)
+    if not (has_arr and has_int):
+        return a, idx
+    # expand ellipsis
+    n_real = sum(1 for j in idx if j is not None and j is not Ellipsis and not (isinstance(j, np.ndarray) and j.dtype == bool and j.ndim > 1))
+    n_real += sum(j.ndim for j in idx if isinstance(j, np.ndarray) and j.dtype == bool and j.ndim > 1)
+    full = []
+    for j in idx:
+        if j is Ellipsis:
+            full.extend([slice(None)] * (a.ndim - n_real))
+        else:
+            full.append(j)
+    first = []
+    rest = []
+    for j in full:
+        if j is None:
+            rest.append(None)
+        elif isinstance(j, (int, np.integer)) and not isinstance(j, bool):
+            first.append(int(j))
+        else:
+            first.append(slice(None))
+            if isinstance(j, np.ndarray) and j.dtype == bool and j.ndim > 1:
+                first.extend([slice(None)] * (j.ndim - 1))
+            rest.append(j)
+    return a[tuple(first)], tuple(rest)
+
+
 def _force_bool(arr):
     """array of bool/Cond -> numpy bool (forks)"""
     if isinstance(arr, (bool, np.bool_)):
@@ -237,7 +271,8 @@ class ST:
 
     # --- indexing
     def __getitem__(self, i):
-        r = self.a[_idx(i)]
+        view, rest = _split_index(self.a, _idx(i))
+        r = view[rest] if rest is not None else view
         if isinstance(r, RF):
             out = np.empty((), dtype=object)
             out[()] = r
@@ -249,7 +284,13 @@ class ST:
         val = _obj(v)
         if val.dtype != object:
             val = _as_float_obj(val)
-        self.a[i] = val if val.ndim > 0 else val[()]
+        view, rest = _split_index(self.a, i)
+        if rest is None:
+            rest = Ellipsis
+        if not isinstance(view, np.ndarray):
+            self.a[i] = val if val.ndim > 0 else val[()]
+        else:
+            view[rest] = val if val.ndim > 0 else val[()]
 
     # --- arithmetic (python operators)
     def _bin(self, o, f, rev=False):
